@@ -199,6 +199,7 @@ func c18Judge(text, setter string) (string, string) {
 
 func C18(args []string) {
 	r := core.Begin("C18", "model_checking", args)
+	r.WatchProgress(watchPeriod()) // the code under test runs in this process: a call that never returns must end the check
 	alpha := c18Alphabet()
 	build := func(idx []int) (string, []string) {
 		var sb strings.Builder
